@@ -157,25 +157,25 @@ macro_rules! deliver_concrete {
     };
 }
 // quick tier: one representative of every stub shape and the table corners
-deliver_concrete!(c13_deliver_v0, 0);
-deliver_concrete!(c13_deliver_v9, 9);
-deliver_concrete!(c13_deliver_v32, 32);
-deliver_concrete!(c13_deliver_v255, 255);
-deliver_concrete!(c13_deliver_v11_errcode, 11);
-deliver_concrete!(c13_deliver_v12_errcode, 12);
-deliver_concrete!(c13_deliver_v14_pagefault, 14);
+deliver_concrete!(c13_deliver_v0_nr, 0);
+deliver_concrete!(c13_deliver_v9_nr, 9);
+deliver_concrete!(c13_deliver_v32_nr, 32);
+deliver_concrete!(c13_deliver_v255_nr, 255);
+deliver_concrete!(c13_deliver_v11_errcode_nr, 11);
+deliver_concrete!(c13_deliver_v12_errcode_nr, 12);
+deliver_concrete!(c13_deliver_v14_pagefault_nr, 14);
 
 /// Vectors 8 and 18: the stub must call the handler and then never return (it panics).
 #[kani::proof]
 #[kani::stub(crate::addr::VirtAddr::new, stub_virt_new)]
-fn c13_deliver_v8_diverges_xpanic() {
+fn c13_deliver_v8_diverges_nr_xpanic() {
     kani::cover!(true);
     deliver(8);
     vp!(C13, false, "double-fault stub returned");
 }
 #[kani::proof]
 #[kani::stub(crate::addr::VirtAddr::new, stub_virt_new)]
-fn c13_deliver_v18_diverges_xpanic() {
+fn c13_deliver_v18_diverges_nr_xpanic() {
     kani::cover!(true);
     deliver(18);
     vp!(C13, false, "machine-check stub returned");
@@ -184,7 +184,7 @@ fn c13_deliver_v18_diverges_xpanic() {
 /// thorough tier: every non-reserved returning vector, symbolically
 #[kani::proof]
 #[kani::stub(crate::addr::VirtAddr::new, stub_virt_new)]
-fn c13t_deliver_all_returning_vectors() {
+fn c13t_deliver_all_returning_vectors_nr() {
     let v: u8 = kani::any();
     kani::assume(!reserved_vector(v) && v != 8 && v != 18);
     deliver(v);
@@ -197,7 +197,7 @@ fn c13t_deliver_all_returning_vectors() {
 /// flags, stack pointer and stack segment.  The block is `noreturn`, so the comparison is made by the
 /// ISA model at the moment IRETQ pops the frame (`iret_expect`), after which the path ends.
 #[kani::proof]
-fn c13_iretq_pops_the_frame() {
+fn c13_iretq_pops_the_frame_nr() {
     let _ = havoc();
     let f = any_frame();
     m().iret_expect = unsafe { EXPECT_FRAME };
